@@ -89,6 +89,46 @@ mod verif_bounded {
         assert!(fails == 0, "{} failures", fails);
     }
 
+    /// spellings of the destination: a bare name in the current directory, `./name`, `sub/name`, `sub/../name` (the backup code substitutes the
+    /// absolute current directory for an empty parent): has_backup says whether a backup exists, the next number exceeds every existing one,
+    /// the chosen path does not exist.  Changes the process' working directory: the bounded tests run single-threaded.
+    #[test]
+    fn bounded_relative_spellings() {
+        let universe: [u64; 3] = [1, 2, 10];
+        let mut fails = 0;
+        let mut cases = 0;
+        let keep = std::env::current_dir().unwrap();
+        for mask in 0u32..(1u32 << universe.len()) {
+            let dir = tempfile::TempDir::new().unwrap();
+            std::fs::create_dir(dir.path().join("sub")).unwrap();
+            std::env::set_current_dir(dir.path()).unwrap();
+            for (spelling, home) in [("f.txt", "."), ("./f.txt", "."), ("sub/f.txt", "sub"), ("sub/../f.txt", ".")] {
+                let homedir = dir.path().join(home);
+                let _ = File::create(homedir.join("f.txt")).unwrap();
+                let mut maxn = 0u64;
+                for (i, n) in universe.iter().enumerate() {
+                    let p = homedir.join(format!("f.txt.~{}~", n));
+                    if mask & (1 << i) != 0 { File::create(&p).unwrap(); if *n > maxn { maxn = *n; } } else { let _ = std::fs::remove_file(&p); }
+                }
+                cases += 1;
+                let base = PathBuf::from(spelling);
+                let r = std::panic::catch_unwind(move || (has_backup(&base), next_backup_num(&base), get_backup_path(&base)));
+                let ok = match r {
+                    Ok((Ok(hb), Ok(n), Ok(bp))) => hb == (mask != 0) && n == maxn + 1 && !bp.exists()
+                        && bp.file_name().map(|x| x.to_string_lossy().into_owned()) == Some(format!("f.txt.~{}~", maxn + 1)),
+                    _ => false,
+                };
+                if !ok {
+                    fails += 1;
+                    if fails <= 5 { report("relative_spellings", format!("destination spelled {:?} (cwd = the directory), existing-mask={:#b} of (1,2,10): has_backup / next number / chosen path wrong", spelling, mask)); }
+                }
+            }
+            std::env::set_current_dir(&keep).unwrap();
+        }
+        println!("VERIF-BOUNDED-CASES {}", cases);
+        assert!(fails == 0, "{} failures", fails);
+    }
+
     /// the ends of the number range: every subset of {0, 1, u64::MAX - 1, u64::MAX} as existing backups.  The next number must exceed every
     /// existing one and name a path that does not exist; when no such number exists the only acceptable answer is an error (no wrap-around,
     /// no saturation onto an existing backup, no arithmetic panic)
@@ -151,18 +191,18 @@ def backup_bounded():
         with open(os.path.join(wd, 'libxcp', 'src', 'backup.rs'), 'a') as f:
             f.write(BACKUP_MOD)
         env = dict(os.environ, CARGO_NET_OFFLINE='true', CARGO_TARGET_DIR=os.path.join(wd, 'target'))
-        p = subprocess.run(['cargo', 'test', '--offline', '-p', 'libxcp', '--lib', 'verif_bounded', '--', '--nocapture', '--test-threads', '2'],
+        p = subprocess.run(['cargo', 'test', '--offline', '-p', 'libxcp', '--lib', 'verif_bounded', '--', '--nocapture', '--test-threads', '1'],
                            cwd=wd, env=env, stdout=subprocess.PIPE, stderr=subprocess.STDOUT, text=True, timeout=1800)
         out = p.stdout
         fails = re.findall(r'VERIF-BOUNDED-FAIL (.*)', out)
         ms = re.findall(r'VERIF-BOUNDED-CASES (\d+)', out)
         ran = re.search(r'test result: (\w+)\. (\d+) passed; (\d+) failed', out)
         res = {
-            'ok': p.returncode == 0 and not fails and ran is not None and ran.group(3) == '0' and ran.group(2) == '3',
+            'ok': p.returncode == 0 and not fails and ran is not None and ran.group(3) == '0' and ran.group(2) == '4',
             'built': ran is not None,
             'failures': fails[:10],
             'cases': sum(int(x) for x in ms) + 7 * 2010 + 8,
-            'bound': 'is_num_backup: 7 names (incl. non-UTF-8, prefix-like) x N in 1..=2000 plus 10 large N, 8 non-backup names; next number at the ends of the range: 2 names x all subsets of {0, 1, u64::MAX-1, u64::MAX}; '
+            'bound': 'is_num_backup: 7 names (incl. non-UTF-8, prefix-like) x N in 1..=2000 plus 10 large N, 8 non-backup names; next number at the ends of the range: 2 names x all subsets of {0, 1, u64::MAX-1, u64::MAX}; 4 spellings of the destination (bare, ./, sub/, sub/../) x all subsets of {1,2,10}; '
                      'next_backup_num/has_backup/get_backup_path: 2 names (one non-UTF-8) x all 1024 subsets of existing numbers {1,2,9,10,11,99,100,101,205,1000}',
             'wall_s': round(time.time() - t0, 1),
             'tail': '' if ran is not None else out[-1500:],
